@@ -749,23 +749,29 @@ func (hs *clientHandshakeState) processServerHello() (bool, error) {
 func (hs *clientHandshakeState) readFinished(out []byte) error {
 	c := hs.c
 
+	// ccsDone：服务端的 CCS 已处理（读 epoch 已切换）。此后若 Finished 超时未到，只能继续等 Finished：
+	// 再次等待 CCS 的话，重传来的 CCS 属于旧 epoch、Finished 又因“正在等待 CCS”被丢弃，握手永远无法完成。
+	ccsDone := false
 	for {
 		// 设置读取超时，使用当前重传定时器值
 		c.pconn.SetReadDeadline(time.Now().Add(c.retransmitTimer.current))
 
-		if err := c.readChangeCipherSpec(); err != nil {
-			// 超时处理：重传 Flight 5
-			if netErr, ok := err.(net.Error); ok && netErr.Timeout() {
-				c.retransmitTimer.backoff()
-				// 重传缓存的 Flight 5 原始字节
-				if len(hs.flightData) > 0 {
-					if _, writeErr := c.writeFlight(hs.flightData); writeErr != nil {
-						return writeErr
+		if !ccsDone {
+			if err := c.readChangeCipherSpec(); err != nil {
+				// 超时处理：重传 Flight 5
+				if netErr, ok := err.(net.Error); ok && netErr.Timeout() {
+					c.retransmitTimer.backoff()
+					// 重传缓存的 Flight 5 原始字节
+					if len(hs.flightData) > 0 {
+						if _, writeErr := c.writeFlight(hs.flightData); writeErr != nil {
+							return writeErr
+						}
 					}
+					continue
 				}
-				continue
+				return err
 			}
-			return err
+			ccsDone = true
 		}
 
 		// 不在此处清除 deadline——Finished 分片重组期间仍需超时保护
